@@ -53,6 +53,9 @@ type Sched struct {
 	// OnAcquire, if set, is called (on the acquiring task's goroutine) right
 	// after a mutex was taken, before the task continues.
 	OnAcquire func(tid int, m *Mutex, heldBefore []*Mutex)
+	// OnRelease, if set, is called (on the releasing task's goroutine) right after a
+	// mutex was released, before the task continues (or parks, with UnlockYields).
+	OnRelease func(tid int, m *Mutex)
 	panics       map[int]interface{}
 }
 
@@ -125,6 +128,9 @@ func (m *Mutex) Unlock() {
 		}
 	}
 	s.Log = append(s.Log, Event{Kind: "rel", Tid: t.id, Mid: m.id})
+	if s.OnRelease != nil {
+		s.OnRelease(t.id, m)
+	}
 	if s.UnlockYields {
 		s.park(t)
 	}
